@@ -199,6 +199,10 @@ func verifRenameCheck(src []byte) {
 // local declaration, then the next level; innermost: a declaration and a use. Reaches link chains over several scope
 // levels (a variable used at level 0 and again at level 2 next to a local declared there).
 func VerifJSRenameChain(n int) {
+	if n == 1 {
+		verifRenameDeep()
+		return
+	}
 	g := &jgen{}
 	s := &jscope{g: g, free: []string{"e"}}
 	out := []byte("x=")
@@ -230,5 +234,36 @@ func VerifJSRenameChain(n int) {
 		out = append(out, '}')
 	}
 	out = append(out, ';')
+	verifRenameCheck(out)
+}
+
+// verifRenameDeep: four nested parameterless functions (or arrows); the outermost declares `outerlong`; every inner
+// level optionally uses it and optionally declares a local; the innermost returns the sum of two visible variables.
+func verifRenameDeep() {
+	g := &jgen{}
+	s := &jscope{g: g, free: []string{"e"}}
+	arrow := vBool("arrow")
+	out := []byte("x=function(){var outerlong=1;")
+	s.visible = append(s.visible, "outerlong")
+	for lvl := 1; lvl <= 3; lvl++ {
+		if arrow {
+			out = append(out, "return()=>{"...)
+		} else {
+			out = append(out, "return function(){"...)
+		}
+		if g.choice(2) == 1 {
+			out = append(out, "g(outerlong);"...)
+		}
+		if g.choice(2) == 1 {
+			v := s.fresh("v")
+			out = append(append(append(out, "var "...), v...), "=2;"...)
+			s.visible = append(s.visible, v)
+		}
+	}
+	out = append(out, "return "...)
+	out = s.use(out)
+	out = append(out, '+')
+	out = s.use(out)
+	out = append(out, "}}}};"...)
 	verifRenameCheck(out)
 }
